@@ -403,6 +403,14 @@ func ReplayManifestFile(fp *os.File, extMagic uint16, opt Options) (Manifest, in
 			return Manifest{}, 0, err
 		}
 		length := y.BytesToU32(lenCrcBuf[0:4])
+		// A change set that claims more bytes than the file still holds was cut short by a crash:
+		// the same situation as the short read below, which ends the replay at the last complete
+		// change set. It must be recognised before the size check: while the MANIFEST is still small
+		// (the first compaction's change set is easily longer than everything before it) a torn
+		// set is larger than the whole file, and Open failed with "might be corrupted".
+		if int64(length) > stat.Size()-r.count {
+			break
+		}
 		// Sanity check to ensure we don't over-allocate memory.
 		if length > uint32(stat.Size()) {
 			return Manifest{}, 0, fmt.Errorf(
